@@ -8,6 +8,7 @@ import (
 	"bytes"
 	"context"
 	"errors"
+	"strconv"
 	"sync"
 )
 
@@ -273,4 +274,27 @@ func PoolCopyOK(a, b []byte) []byte {
 	out := make([]byte, buf.Len())
 	copy(out, buf.Bytes())
 	return out
+}
+
+// ---- key hashes
+type prefixHasher struct{}
+
+func (prefixHasher) Sum64(key string) uint64 {
+	if len(key) >= 8 {
+		if sum, err := strconv.ParseUint(key[:8], 16, 64); err == nil {
+			return sum
+		}
+	}
+	return 0
+}
+
+type wholeHasher struct{}
+
+func (wholeHasher) Sum64(key string) uint64 {
+	var h uint64 = 14695981039346656037
+	for i := 0; i < len(key); i++ {
+		h ^= uint64(key[i])
+		h *= 1099511628211
+	}
+	return h
 }
